@@ -562,14 +562,14 @@ def run(ctx: C.Ctx):
     N = 4
     # ---- parts
     parts = []
-    n_guard = 900 if thorough else 110
+    n_guard = 800 if thorough else 110
     for i in range(n_guard):
         parts.append(gen_guard_part(rng, N, balanced=(i % 3 != 2)))
-    for i in range(400 if thorough else 24):
+    for i in range(300 if thorough else 24):
         p = gen_index_error_part(rng, N)
         if p:
             parts.append(p)
-    for i in range(700 if thorough else 60):
+    for i in range(500 if thorough else 60):
         parts.append(gen_outside_part(rng, N))
     ex_parts = gen_exhaustive_parts(3 if thorough else 2, N)
     parts += ex_parts
@@ -586,7 +586,7 @@ def run(ctx: C.Ctx):
         else:
             expect_safe = p["kind"].startswith("guard")
         (safe_parts if expect_safe else single).append(p)
-    cap = 1200 if thorough else 34
+    cap = 800 if thorough else 34
     if len(single) > cap:
         # keep every kind represented: shuffle deterministically, keep the first `cap`
         rng.shuffle(single)
@@ -707,8 +707,13 @@ def run(ctx: C.Ctx):
                         ctx.disagree(f"model: {KIND_NAMES[mferr]}; real firmware ran clean under ASan/UBSan", info,
                                      KIND_NAMES[mferr], "clean")
                 elif cls != mferr:
-                    ctx.disagree("class of the memory error differs (model vs sanitizer report)", info, KIND_NAMES[mferr],
-                                 {"class": KIND_NAMES.get(cls, cls), "stderr": r["stderr"][-600:]})
+                    if mferr == 0:
+                        # the out-of-bounds read went unnoticed (own header / another live block) and the run went on
+                        # to a later error: nothing left to compare
+                        st["oob_not_detected_by_asan"] += 1
+                    else:
+                        ctx.disagree("class of the memory error differs (model vs sanitizer report)", info, KIND_NAMES[mferr],
+                                     {"class": KIND_NAMES.get(cls, cls), "stderr": r["stderr"][-600:]})
         # ---- property oracle on the implementation (inside the guard, CPython exception-free)
         if g and py_ok(py, prog["N"]):
             st["in_guard_py_ok"] += 1
